@@ -110,6 +110,17 @@ class AccessMixin:
                     raise Unsupported('attribute %s on %s' % (attr, v.t))
                 if attr == 'args' and tag is None:
                     tag = 'seq'
+                if attr in self.cfg.optional_attrs:
+                    present = fn('attr_present', R, z3.StringSort(), z3.BoolSort())(v.v, z3.StringVal(attr))
+                    res = []
+                    for s2, flag in self.split(st, present):
+                        if flag:
+                            val = s2.attr_arr(attr)[v.v]
+                            s2.add(Z.birth(z3.Const('at0_' + attr, Z.ArrRR)[v.v]) < z3.Int('clock0'))
+                            res.append(('ok', s2, self.unbox(s2, val, tag)))
+                        else:
+                            res += self.raise_builtin(s2, 'AttributeError', [sv_str(attr)])
+                    return res
                 val = st.attr_arr(attr)[v.v]
                 # the initial heap only references objects that existed before this execution started
                 st.add(Z.birth(z3.Const('at0_' + attr, Z.ArrRR)[v.v]) < z3.Int('clock0'))
